@@ -450,6 +450,27 @@ def r9_slot_arity_and_gate(facts):
                   % (len(slots), parent["def"], sorted(ks), "; ".join(w for _, w in ar)))
             continue
         c.ok(inst + "#arity", where, "%d slot(s) = %d recorded operand(s) (%s)" % (len(slots), len(slots), ar[0][1]))
+        # the closure indexes its operand / flag slices only below the number of recorded operands
+        cps_ = [p_ for p_ in facts.params(b) if p_.get("pat")]
+        idx_vars = {p_["pat"]["v"]: nm for p_, nm in zip(cps_[:2], ("operands", "flags")) if p_["pat"].get("k") == "Binding"}
+        oob = None
+        for nb_ in facts.nested(b):
+            for x in walk(facts.root(nb_)):
+                base_, i_ = None, None
+                if x.get("k") == "Index":
+                    base_, i_ = x["e"], x["i"]
+                elif x.get("k") == "Call" and callee(x) == "core::ops::index::Index::index" and len(x["args"]) == 2:
+                    base_, i_ = x["args"][0], x["args"][1]
+                if base_ is None:
+                    continue
+                bv = var_of(peel(base_))
+                iv = lit_value(i_)
+                if bv in idx_vars and isinstance(iv, int) and not isinstance(iv, bool) and iv >= len(slots):
+                    oob = oob or (nb_, x, idx_vars[bv], iv)
+        if oob:
+            c.bad(inst + "#operand-index", loc(oob[0], oob[1]), "the derivative reads %s[%d] but only %d operand(s) are recorded: it panics (index out of bounds) whenever it runs" % (oob[2], oob[3], len(slots)))
+        else:
+            c.ok(inst + "#operand-index", where, "operand / flag indices stay below the number of recorded operands", nontrivial=False)
         for i, s in enumerate(slots):
             form, idx, val = slot_form(s, tvar)
             sinst = "%s#slot%d" % (inst, i)
